@@ -9,7 +9,7 @@
     a value and has an index) and every rendered left column is at most 65 523 columns wide (observation N:
     core::fmt limits run-time widths to u16; the bound is 65 535 - 12). *)
 From ClapModel Require Import Base.Bytes Base.Machine Parse.Cmd Parse.Build Parse.Valid Parse.Errors Parse.Parser.
-From ClapModel Require Import Gen.HelpTables Help.UsageModel Help.HelpModel Help.HelpProofs Help.HelpLevel Help.HelpSpecVals Help.HelpDispatch.
+From ClapModel Require Import Gen.HelpTables Help.UsageModel Help.HelpModel Help.HelpProofs Help.HelpLevel Help.HelpSpecVals Help.HelpDispatch Help.HelpUsage.
 From RecordUpdate Require Import RecordSet.
 Import RecordSetNotations.
 Open Scope N_scope.
@@ -218,3 +218,22 @@ Theorem C12_help_chain_satisfiable :
                 /\ parse_top hd_root ([112] :: hd_names ++ tok_help_short :: []) = OErr (help_err lv false).
 Proof. exact hd_hyps. Qed.
 Print Assumptions C12_help_chain_satisfiable.
+
+(** ---- round 2: the usage line mentions every required positional ---- *)
+
+(** on a built command whose positional indices identify the argument (what [_build_self] and the debug
+    asserts establish) every required positional -- hidden or not -- has its piece in the usage line *)
+Theorem C12_usage_lists_required_positionals : forall c items a,
+  args_ok c -> usage_arg_items c = Some items ->
+  In a (hc_args c) -> ha_is_positional a = true -> ha_required a = true ->
+  (forall b, In b (hc_args c) -> ha_index b = ha_index a -> ha_id b = ha_id a) ->
+  In (ha_id a) (map fst items).
+Proof. exact usage_lists_required_positionals. Qed.
+Print Assumptions C12_usage_lists_required_positionals.
+
+Theorem C12_usage_required_satisfiable :
+  args_ok ex_built /\ usage_arg_items ex_built = Some [([102], [60; 102; 62])] /\ In ex_f (hc_args ex_built)
+  /\ ha_is_positional ex_f = true /\ ha_required ex_f = true
+  /\ (forall b, In b (hc_args ex_built) -> ha_index b = ha_index ex_f -> ha_id b = ha_id ex_f).
+Proof. exact ex_cmd_usage. Qed.
+Print Assumptions C12_usage_required_satisfiable.
